@@ -6,7 +6,7 @@ from hypothesis import strategies as st
 from .. import gen, model, norm, walk
 from ..common import canon, lib
 from ..core import require
-from ..spec import build, kinds, make_quantity
+from ..spec import build, kinds, make_quantity, walk_spec
 from .c03 import _qbearing, count_before_shape, make_data
 
 ID = "C16"
@@ -17,7 +17,8 @@ RULE = (
     "Branch children and Select.cut, nested up to 3 levels) with arbitrary subtrees at its leaves, and two installing "
     "positions: siblings, cousins under different parents, or a node and its own ancestor (a cycle, only constructible "
     "by assigning the attribute after construction); the shared object is whatever subtree was built at the first "
-    "position; row-wise or vectorised fill; first and repeated attempts.  Control group: the same skeletons without "
+    "position, installed through the constructors or assigned into a tree derived by copy / + / * / zero (filled before "
+    "or not); row-wise or vectorised fill; first and repeated attempts.  Control group: the same skeletons without "
     "sharing, built so that all SparselyBin/Categorize nodes share one template object per template spec (explicitly) "
     "or the constructor's default template.  Oracle: shared => fill / fill.numpy raise ContainerException, the shallow "
     "state of every node (walked with a visited set) is unchanged, and a second attempt raises again; control => no "
@@ -118,6 +119,9 @@ def strategy(tier):
             else:
                 case["p1"] = list(pos[i])
                 case["p2"] = list(others[draw(st.integers(0, len(others) - 1))])
+                # the tree may be a derived one (copy, +, *, zero) into which the second reference is assigned afterwards
+                case["install"] = draw(st.sampled_from(("ctor", "ctor", "assign")))
+                case["derive"] = draw(st.sampled_from(("none", "copy", "copy", "plus", "times", "zero", "copy-filled")))
         elif mode == "cycle":
             # install an ancestor (or the node itself) as a child of a keeping node
             nodes = [()] + [p for p in pos if sub_at(spec, p)["k"] in KEEP]
@@ -128,6 +132,34 @@ def strategy(tier):
         return case
 
     return cases()
+
+
+def obj_at(h, path):
+    cur = h
+    path = list(path)
+    while path:
+        p = path.pop(0)
+        if p == "cut":
+            cur = cur.cut
+        else:
+            key = path.pop(0)
+            cur = cur.pairs[key] if p == "pairs" else cur.values[key]
+    return cur
+
+
+def assign_at(h, path, obj):
+    """Install obj at the child slot `path` of the live tree h by plain assignment."""
+    parent = obj_at(h, parent_of(path))
+    if path[-1] == "cut":
+        parent.cut = obj
+    elif path[-2] == "pairs":
+        parent.pairs[path[-1]] = obj
+    else:
+        vals = list(parent.values)
+        vals[path[-1]] = obj
+        parent.values = type(parent.values)(vals) if isinstance(parent.values, (list, tuple)) else vals
+        if parent.name == "Branch":
+            setattr(parent, f"i{path[-1]}", obj)
 
 
 class Builder:
@@ -245,7 +277,8 @@ def check(case):  # noqa: PLR0912, PLR0915
     if mode == "shared":
         p1, p2 = tuple(case["p1"]), tuple(case["p2"])
         first, second = sorted((p1, p2), key=lambda p: keep_positions(spec).index(p))
-        b = Builder(share={second: first})
+        assign = case.get("install") == "assign"
+        b = Builder(share={} if assign else {second: first})
         try:
             h = b.build(spec)
         except (ContainerException, ValueError):
@@ -254,6 +287,23 @@ def check(case):  # noqa: PLR0912, PLR0915
         adjacent = first[:-1] == second[:-1]
         what = f"the object at {'/'.join(map(str, first))} also installed at {'/'.join(map(str, second))}"
         pre = case.get("prefill", "none")
+        if assign:
+            pre = "none"
+            how = case.get("derive", "none")
+            if how == "copy-filled":
+                attempt(h)
+                h = h.copy()
+            elif how == "copy":
+                h = h.copy()
+            elif how == "plus":
+                h = h + h.zero()
+            elif how == "zero":
+                h = h.zero()
+            elif how == "times" and not any(s_["k"] == "Count" and s_.get("transform") for _, s_ in walk_spec(spec)):
+                h = h * 2.0
+            assign_at(h, second, obj_at(h, first))
+            what += f" by assignment (tree derived by: {how})"
+            labels += ["install:assign", "derive:" + how]
         if pre == "object":
             for r, w in rows:
                 b.built[first].fill(r, w)
